@@ -100,7 +100,7 @@ def _dir_pipeline(pl, sd, fix, info, cid):
             cert = os.path.join(sd, "cert.cbor")
             rcg, sog, seg = run("gen-certurl", ["-pem", os.path.join(fix, "%s-cert%d.pem" % (p2["curve"], p2.get("ncerts", 1))), "-ocsp", os.path.join(fix, "ocsp.der")], sd)
             open(cert, "wb").write(sog)
-            signed = os.path.join(sd, "signed.wbn")
+            signed = out if p2.get("inplace") else os.path.join(sd, "signed.wbn")
             rcs, sos, ses = run("sign-bundle", ["signatures-section", "-i", out, "-o", signed, "-certificate", cert, "-privateKey", os.path.join(fix, "%s-%s.key" % (p2["curve"], p2["keyform"])),
                                                 "-validityUrl", "https://example.com/validity", "-miRecordSize", str(p2["rs"])], sd)
             ev["sign"], ev["sign_exit"] = "sigsection", rcs if rcg == 0 else 90
@@ -262,6 +262,46 @@ def ib_cli(rep, pid):
             rep.violation("ibcli:%s:%s" % (c["keyform"], w[:50]), "sign-bundle integrity-block / dump-id (%s key) on a %d-byte bundle, output path holding an older, longer file: %s [exits sign=%s dump-id=%s; output %d bytes; %s]" % (
                 c["keyform"], len(c["infile"]), w, c["sign_exit"], c["dumpid_exit"], len(c["out"]), c["stderr"][-160:]), {"component": "cli", "event": {k: v for k, v in c.items() if k not in ("infile", "out")}, "why": w})
     rep.add("cli_integrity_block", records=n, rejected=len(rejects))
+    return n
+
+
+def sig_cli(rep, pid):
+    """The command-line path of signatures-section signing (used by C06 too): gen-bundle -> sign-bundle signatures-section
+    (in place and to a new file, leaf-only and leaf+issuer chains, both key layouts) -> dump-bundle."""
+    build_cli()
+    wd = workdir(pid)
+    fix = os.path.join(wd, "fixtures")
+    shutil.rmtree(fix, ignore_errors=True)
+    info = vh(["cli-fixtures", fix])[0]
+    scratch = vlib.fresh(os.path.join(wd, "scratch-sig"))
+    events = []
+    i = 0
+    for ver in ("b1", "b2"):
+        for inplace in (True, False):
+            for nc, kf in ((1, "sec1"), (2, "sec1params")):
+                i += 1
+                pl = [{"tool": "gen-bundle -dir", "p": {"names": "nested", "ver": ver, "base": "root", "override": "none"}},
+                      {"tool": "sign-bundle signatures-section", "p": {"keyform": kf, "curve": "p256" if i % 2 else "p384", "rs": 16, "ncerts": nc, "inplace": inplace}},
+                      {"tool": "dump-bundle", "p": {"x": 0}}]
+                sd = vlib.fresh(os.path.join(scratch, "s%d" % i))
+                events += _dir_pipeline(pl, sd, fix, info, "sigcli%d" % i)
+                shutil.rmtree(sd, ignore_errors=True)
+    outp = os.path.join(wd, "sigcli.ndjson")
+    cases = {}
+    with open(outp, "w") as f:
+        for e in events:
+            cases[e["case"]] = e
+            f.write(json.dumps(e) + "\n")
+    n, rejects, states = trace_validate("Trace_Cli", pid + "/sigcli", outp, overrides=True, shards=8, timeout=3000)
+    rep.cov["states"] += states
+    rep.cov["transitions"] += states
+    rep.cov["traces_validated_against_impl"] += n
+    for rj in rejects:
+        c = cases[rj["case"]]
+        for w in rj["why"]:
+            rep.violation("sigcli:%s:%s" % (c["ver"], w[:50]), "gen-bundle -> sign-bundle signatures-section -> dump-bundle (%s): %s [exits gen=%s sign=%s dump=%s marks=%s; %s]" % (
+                c["ver"], w, c["gen_exit"], c["sign_exit"], c["dump2_exit"], c["marks"], c["stderr"][-160:]), {"component": "cli", "event": {k: v for k, v in c.items() if k not in ("file", "files")}, "why": w})
+    rep.add("cli_signatures_section", records=n, rejected=len(rejects))
     return n
 
 
